@@ -171,3 +171,28 @@ func Match(p P, x *X) (Binds, bool) {
 	ok := p(x, b)
 	return b, ok
 }
+
+// CallLike matches a static call whose callee name contains every given fragment
+// (for instantiated generic functions whose printed name carries type arguments).
+func CallLike(frags []string, args ...P) P {
+	return func(x *X, b Binds) bool {
+		x = strip(x)
+		if x == nil || x.Op != "call" {
+			return false
+		}
+		for _, f := range frags {
+			if !strings.Contains(x.Name, f) {
+				return false
+			}
+		}
+		if len(args) > len(x.Args) {
+			return false
+		}
+		for i, p := range args {
+			if !p(x.Args[i], b) {
+				return false
+			}
+		}
+		return true
+	}
+}
